@@ -509,10 +509,18 @@ pub fn hist_with(rng: &mut Rng, histories: usize, family: bool, kin: bool, out: 
                     let h = hs[r].as_ref().unwrap();
                     hs[free] = Some(Hist { router: h.router.clone(), live: h.live.clone(), routes: h.routes.clone() });
                     out.display(free);
-                } else if alive.len() > 1 {
+                } else if alive.len() > 1 && rng.chance(1, 2) {
                     out.op(format!("drop {r}"));
                     hs[r] = None;
                     continue;
+                } else if alive.len() > 1 {
+                    // refresh another member of the family in place (`clone_from` onto a router that shares history)
+                    let others: Vec<usize> = alive.iter().copied().filter(|i| *i != r).collect();
+                    let r2 = *rng.pick(&others);
+                    out.op(format!("clone {r} {r2}"));
+                    let h = hs[r].as_ref().unwrap();
+                    hs[r2] = Some(Hist { router: h.router.clone(), live: h.live.clone(), routes: h.routes.clone() });
+                    out.display(r2);
                 }
             } else if k < 81 {
                 // rebuild the same live set in a fresh router, in sorted order (C05)
